@@ -2,7 +2,7 @@
 # For every `fix:` commit of /repo: revert it alone in a scratch worktree (git revert --no-commit), confirm the pinned suite
 # still passes there (it did before the fix), run the checks of the properties the fix is recorded under, remove the worktree.
 # Shows that a fixed defect is reported again if it ever returns.  Writes seeded/REVERTS.txt.
-cd /verif
+cd ${VERIF_HOME:-/verif}
 out=seeded/REVERTS.txt
 : > $out.tmp
 git -C /repo log --format='%h %s' | grep ' fix:' | while read c msg; do
@@ -12,7 +12,7 @@ git -C /repo log --format='%h %s' | grep ' fix:' | while read c msg; do
   if git -C "$W" revert --no-commit $c >/dev/null 2>&1; then
     tools/baseline.sh "$W" >/dev/null 2>&1; base=$?
     for p in $props; do
-      outp=$(cd /verif && VERIF_INTENSIFY=${REV_INTENSIFY:-0} VERIF_REPO="$W" ./check $p --tier quick 2>&1); rc=$?
+      outp=$(cd ${VERIF_HOME:-/verif} && VERIF_INTENSIFY=${REV_INTENSIFY:-0} VERIF_REPO="$W" ./check $p --tier quick 2>&1); rc=$?
       r=$(echo "$outp" | grep -E "^VIOLATION" | head -1)
       v=MISSED; [ -n "$r" ] && [ $rc = 1 ] && v=caught; [ $rc = 2 ] && v="ERROR(rc=2)"
       case "$r" in *no-failing-input-found*) v="caught (no-failing-input-found)";; esac
